@@ -53,11 +53,16 @@ def download_license(spdx_identifier: str) -> str:
 
 def _path_to_license_file(spdx_identifier: str, project: Project) -> Path:
     root: Optional[Path] = project.root
-    # Hack
+    # Hack: inside an unversioned LICENSES/ directory, the project root is that
+    # very directory, and the license belongs in it instead of in a new
+    # LICENSES/LICENSES/. This only concerns a root that is the working
+    # directory; a root named with --root from somewhere else keeps its
+    # LICENSES/ subdirectory whatever it is called itself.
     if (
         root
         and root.name == "LICENSES"
         and isinstance(project.vcs_strategy, VCSStrategyNone)
+        and root.resolve() == Path.cwd().resolve()
     ):
         root = None
 
